@@ -123,6 +123,16 @@ OrderingOK(o, k, before, sel, rest, p) ==
   ELSE IF OrderingOf(p) = "strongest" THEN \A x \in sel : \A y \in rest : Imp(m, before, x) >= Imp(m, before, y)
   ELSE TRUE
 
+(* the deterministic orderings as sequences: weakest = stable ascending sort of the declared order by importance, *)
+(* strongest = its exact reverse; the criteria a bias selects are the first k of the ordering, in that order       *)
+RevSeq(q) == [i \in DOMAIN q |-> q[Len(q) + 1 - i]]
+ImpMap(o, st) == [c \in StCritIds(st) |-> Imp(Method(o), st, c)]
+OrderingSeq(o, st, ordname) ==
+  LET w == StableAsc(CritIdSeq(st), ImpMap(o, st)) IN IF ordname = "strongest" THEN RevSeq(w) ELSE w
+SelectedSeqOK(o, k, before, selseq, p) ==
+  (ExactBefore(o, k) /\ OrderingOf(p) \in {"weakest", "strongest"} /\ SeqSet(selseq) \subseteq StCritIds(before) /\ NoDup(selseq)) =>
+     selseq = SubSeq(OrderingSeq(o, before, OrderingOf(p)), 1, Len(selseq))
+
 (* ---------------- C15: criteria omission ---------------- *)
 C15Event(o, k, b) ==
   LET e == BiasEvents(o)[k]
@@ -140,6 +150,7 @@ C15Event(o, k, b) ==
           \cup (IF StCritIds(after) = StCritIds(before) \ SeqSet(om) /\ NoDup(CritIdSeq(after)) THEN {} ELSE {BFail("C15", "partition", "")})
           \cup (IF ~(SeqSet(om) \subseteq StCritIds(before)) \/ OrderingOK(o, k, before, SeqSet(om), StCritIds(before) \ SeqSet(om), p)
                 THEN {} ELSE {BFail("C15", "importance-order", "")})
+          \cup (IF SelectedSeqOK(o, k, before, om, p) THEN {} ELSE {BFail("C15", "not-the-front-of-the-ordering", "")})
           \cup (IF ValuesCoherent(after) /\ (Has(e, "probeEval") => (e.probeEval /\ e.probeRank)) THEN {} ELSE {BFail("C15", "not-restricted", "")})
 
 (* ---------------- C16: preference reversal ---------------- *)
@@ -161,6 +172,7 @@ C16Event(o, k, b) ==
           \cup (IF okIds THEN {} ELSE {BFail("C16", "selected-not-declared", "")})
           \cup (IF ~okIds \/ OrderingOK(o, k, before, SeqSet(sel), StCritIds(before) \ SeqSet(sel), p)
                 THEN {} ELSE {BFail("C16", "importance-order", "")})
+          \cup (IF ~okIds \/ SelectedSeqOK(o, k, before, sel, p) THEN {} ELSE {BFail("C16", "not-the-front-of-the-ordering", "")})
           \cup (IF after.criteria = before.criteria /\ after.params = before.params THEN {} ELSE {BFail("C16", "criteria-or-params-changed", "")})
           \cup (IF ~(okIds /\ coherent) THEN {}
                 ELSE (IF \A j \in DOMAIN rc :
